@@ -133,7 +133,41 @@ pub fn site_of(f: &Finding, labels: &[String]) -> String {
 }
 
 /// Execute a supply trace and fold the result into the record. Returns own findings.
+thread_local! {
+    /// the last few supply traces this worker executed (most recent last): the history of the next one
+    static RECENT: std::cell::RefCell<Vec<SupplyTrace>> = std::cell::RefCell::new(Vec::new());
+}
+const HISTORY_LEN: usize = 3;
+
 pub fn exec_supply(check: &str, t: &SupplyTrace, scratch: &Scratch, rec: &mut RunRecord, seed: u64, index: u64) -> Vec<Finding> {
+    let before_own = rec.own.len();
+    let r = exec_supply_inner(check, t, scratch, rec, seed, index);
+    // whatever this process executed just before may matter (process-wide state inside the library):
+    // it is kept as the violation's history and dropped again by the minimiser if a fresh process
+    // reproduces the violation without it
+    RECENT.with(|h| {
+        let mut h = h.borrow_mut();
+        if rec.own.len() > before_own && !h.is_empty() {
+            for v in rec.own.iter_mut().skip(before_own) {
+                let mut seq: Vec<Trace> = h.iter().cloned().map(Trace::Supply).collect();
+                seq.push(v.trace.clone());
+                v.trace = Trace::Seq(seq);
+            }
+        }
+        h.push(t.clone());
+        if h.len() > HISTORY_LEN {
+            h.remove(0);
+        }
+    });
+    r
+}
+
+/// For replays: forget what this process executed before.
+pub fn clear_history() {
+    RECENT.with(|h| h.borrow_mut().clear());
+}
+
+fn exec_supply_inner(check: &str, t: &SupplyTrace, scratch: &Scratch, rec: &mut RunRecord, seed: u64, index: u64) -> Vec<Finding> {
     crate::crash::write_current_supply(t);
     let o = run_supply(t, scratch);
     let j = oracle::judge_supply(t, &o);
@@ -254,7 +288,7 @@ fn faults_for(check: &str) -> (&'static [F], &'static [F]) {
         F::LNoSig, F::LForged, F::LCorrupt, F::LEdit, F::LEdit, F::LSigDup, F::CallerEmpty, F::CallerSuperset, F::CallerDisjoint, F::CallerAlias, F::CallerJsonAlias, F::UnknownSchemeOwner,
     ];
     const BYTES: &[F] = &[F::ByteFlip, F::ByteTrunc, F::ByteOverwrite, F::DupFile, F::SigDup, F::SigShuf];
-    const DELEG: &[F] = &[F::SubWrongSigner, F::SubExpired, F::SubInner, F::SubInner, F::WrongDir, F::ATamper, F::SharedSub, F::WrongStep, F::ExtraStranger, F::SubInspectionFails];
+    const DELEG: &[F] = &[F::SubWrongSigner, F::SubExpired, F::SubInner, F::SubInner, F::WrongDir, F::ATamper, F::SharedSub, F::WrongStep, F::ExtraStranger, F::SubInspectionFails, F::DecoyDir, F::DecoyDir];
     const DISSENT: &[F] = &[F::Dissent, F::Dissent, F::Dissent, F::SharedSub];
     const C14F: &[F] = &[F::ByteFlip, F::ByteTrunc, F::ByteOverwrite, F::Garbage, F::IsDir, F::Dangling, F::DupFile, F::OddFileName, F::LEdit, F::LinkEdit];
     match check {
@@ -301,6 +335,13 @@ pub fn run_supply_check(check: &str, tier: Tier, seed: u64, index: u64, scratch:
     // the fault-free world must be accepted, otherwise nothing about the faulted one is decided
     let before = rec.evaluations;
     let o = run_supply(&t, scratch);
+    RECENT.with(|h| {
+        let mut h = h.borrow_mut();
+        h.push(t.clone());
+        if h.len() > HISTORY_LEN {
+            h.remove(0);
+        }
+    });
     let accepted = o.no_layout.is_none() && o.verdicts.iter().all(|v| v.ok);
     if !accepted {
         // counted, and reported in the evidence; the faulted world is judged all the same: the oracles
@@ -321,7 +362,13 @@ pub fn run_supply_check(check: &str, tier: Tier, seed: u64, index: u64, scratch:
             }
         }
     }
-    t.rel_link_dir = fr.chance(1, 6);
+    // environment: how the link directory is named, whether the transport preserves time stamps
+    t.link_dir_style = match fr.weighted(&[70, 15, 15]) {
+        0 => 0,
+        1 => 1,
+        _ => 2,
+    };
+    t.fixed_mtime = fr.chance(1, 4);
     if check == "C15" && fr.chance(1, 3) {
         // the caller asks for a named summary
         t.step_name = Some(gen::simple_name(&mut fr));
@@ -341,12 +388,8 @@ pub fn run_supply_check(check: &str, tier: Tier, seed: u64, index: u64, scratch:
     }
     let sim = t.clock[0].0 - plan.now;
     rec.sim_seconds += sim.abs() as f64;
-    let before = rec.own.len();
+    let _ = &baseline_trace;
     exec_supply(check, &t, scratch, rec, seed, index);
-    // the fault-free world was verified first in this process: keep it as the violation's history
-    for v in rec.own.iter_mut().skip(before) {
-        v.trace = Trace::Seq(vec![Trace::Supply(baseline_trace.clone()), v.trace.clone()]);
-    }
 }
 
 /// C13: worlds biased to the dangerous shape, verified N times under different hash keys / arrival orders.
@@ -360,7 +403,7 @@ pub fn run_c13(tier: Tier, seed: u64, index: u64, scratch: &Scratch, rec: &mut R
     let ed_only = t.keys.iter().all(|k| k.kind.is_ed());
     let n_steps = t.root.layout.steps.len();
     let si = fr.idx(n_steps);
-    let shape = fr.below(6);
+    let shape = fr.below(7);
     let sname = t.root.layout.steps[si].name.clone();
     let template = t.root.files.iter().find(|f| f.name.starts_with(&format!("{}.", sname)) && matches!(f.body, crate::world::Body::Link(_))).cloned();
     if let Some(tpl) = template {
@@ -431,6 +474,20 @@ pub fn run_c13(tier: Tier, seed: u64, index: u64, scratch: &Scratch, rec: &mut R
                 }
                 t.labels.push("PARTIAL-DIGEST".into());
             }
+        } else if shape == 6 {
+            // an inspection whose rules look at the working directory, which holds several names for one
+            // file; the entries are created in another order on every repetition
+            let name = "dirscan".to_string();
+            t.root.layout.inspect.push(crate::world::InspSpec {
+                name: name.clone(),
+                exp_mat: vec![vec!["REQUIRE".into(), "libfoo.so".into()], vec!["ALLOW".into(), "*".into()]],
+                exp_prod: vec![vec!["REQUIRE".into(), "zz-last".into()], vec!["ALLOW".into(), "*".into()]],
+                actor: crate::world::ActorScript { id: format!("root#{name}"), ops: vec![], stdout: vec![], stderr: vec![], exit: crate::world::ExitSpec::Code(0) },
+            });
+            t.work_files = vec![("libfoo.so.1.0".into(), "ELF".into()), ("aaa-first".into(), "1".into()), ("zz-last".into(), "2".into()), ("middle".into(), "3".into())];
+            t.work_links = vec![("libfoo.so".into(), "libfoo.so.1.0".into()), ("libfoo.so.1".into(), "libfoo.so.1.0".into()), ("alias".into(), "middle".into())];
+            t.hash_seeds.truncate(6);
+            t.labels.push("INSPECTION-DIR-ORDER".into());
         } else {
             // one key under two key ids (raw ed25519 and its PKCS#8 import), both authorized for one
             // step, each with its own, different link
@@ -466,7 +523,7 @@ pub fn run_c13(tier: Tier, seed: u64, index: u64, scratch: &Scratch, rec: &mut R
     t.rel_link_dir = fr.chance(1, 4);
     // a second arrival order
     let mut ar = Rng::stream(seed, "arrival2");
-    t.arrivals = vec![ar.next(), ar.next(), ar.next()];
+    t.arrivals = (0..6).map(|_| ar.next()).collect();
     if fr.chance(1, 5) {
         let plan = gen::Plan::default();
         let _ = plan;
@@ -497,6 +554,9 @@ pub fn run_one(check: &str, tier: Tier, seed: u64, index: u64, scratch: &Scratch
 /// Re-execute a trace and report the findings of `prop` (used by replay and by the minimiser).
 pub fn replay_trace(prop: &str, trace: &Trace, scratch: &Scratch) -> Vec<Finding> {
     let mut rec = RunRecord::default();
+    if !matches!(trace, Trace::Seq(_)) {
+        clear_history();
+    }
     match trace {
         Trace::Supply(t) => exec_supply(prop, t, scratch, &mut rec, 0, 0),
         Trace::Ceremony(t) => crate::ceremony::replay(prop, t, &mut rec),
